@@ -118,6 +118,20 @@ func streamProv(o *Out, r *rand.Rand, n int, thorough bool) {
 		"delete, element assignment, channel ops, deref, conversion to Go parameters) x operand values (int, float, string, bool, nil, list, map, script and Go functions, " +
 		"channel, pointer) x provenance chains of length 1-3 (element, map entry, member, script call, script argument, Go call returning interface{}, parentheses, ?:, ??, " +
 		"multi-return element, variadic tail); oracle: outcome must equal the same template on the plain variable; F0 templates also through the model; distinct by request hash"
+	// a function value reached through an element / a map entry / a call result and called where it is read - on several
+	// goroutines at the same time, each through its own operand - is the function that operand evaluated to
+	for _, c := range []struct{ name, callee string }{{"element", "fns[k](i)"}, {"map-entry", "fm[k](i)"}, {"call-result", "pick(k)(i)"}, {"member", "mods[k].f(i)"}} {
+		src := "fns = []\nfm = {}\nmods = []\nfor j = 0; j < 8; j++ {\nfunc(j) {\nf = func(x) { return x * 10 + j }\nfns += f\nfm[j] = f\nmods += {\"f\": f}\n}(j)\n}\nfunc pick(k) { return fns[k] }\n" +
+			"res = make(chan int64, 8)\nfunc worker(k) {\nvar bad = 0\nfor i = 0; i < 15000; i++ {\nif " + c.callee + " != i * 10 + k {\nbad++\n}\n}\nres <- bad\n}\n" +
+			"for k = 0; k < 8; k++ {\ngo worker(k)\n}\ntotal = 0\nfor k = 0; k < 8; k++ {\ntotal += <-res\n}\ntotal"
+		out := runScript(src, nil, nil)
+		o.Sum.Evaluations++
+		o.Sum.Hist["concurrent-callee:"+c.name]++
+		if out.panicked || out.err != nil || !sameValue(int64(0), out.val) {
+			o.Fail(Failure{Oracle: "callee-is-the-operand", Key: "prov-concurrent-callee:" + c.name, Input: src,
+				Detail: fmt.Sprintf("calls that reached another function than their operand evaluated to: %v (err %v, panic %v)", out.val, out.err, out.panicVal)})
+		}
+	}
 	valNames := []string{"vint", "vfloat", "vstr", "vbool", "vnil", "vzero", "vlist", "vmap", "vfn", "vgofn", "vchan", "vptr", "vone", "vbig", "vbig0", "vdur", "vurl", "vcel", "vmodule", "vmapnil"}
 	run := func(src string) (vmResult, bool) {
 		stmt, err := parser.ParseSrc(src)
